@@ -6,6 +6,9 @@ Streams
              13^3 = 2197) / sampled graphs over 4 files with 0-3 includes (thorough), files in
              different directories, the call made from two other current directories
   malformed  ill-formed / unusual include lines, missing files, parse errors, string root
+  include_scope  'include scope <module.object> [<sub.path>]' with Python-level targets (strings, scope
+             objects, callables; nested include file / include scope lines inside the targets), written
+             as a module into the per-run directory; oracle-only (the model answers Unmodelled)
 
 Files are written below a fresh directory made with tempfile.mkdtemp(dir="/tmp") (never under
 /repo or /verif) and removed at exit.  A case holds only relative names and file texts; the
@@ -598,20 +601,345 @@ class Malformed(IncludeStream):
         return case["mode"] + ":" + (r[0] if r[0] == "ok" else r[2] or r[1])
 
 
+# ----------------------------------------------------------------------------- include scope
+MODMARK = "@MOD@"
+INC_SCOPE_RE = re.compile(r'^include\s+scope((?:\s+\S+)+)$')
+
+# PHIL texts of the Python-level targets; each is offered as a string (<name>_s), as a parsed
+# scope object (<name>_o) and as a callable returning a scope (<name>_c)
+TARGETS = {
+    "plain": "x = 1\n  .help = u\ns\n  .help = v\n{\n  y = 2\n  z = 3\n}\nx = 3\n",
+    # nested include file: absolute name, and a relative one (scopes have no directory: resolved
+    # against the current directory)
+    "nf": "p = 1\ninclude file @ROOT@/sc/f1.phil\nr {\n  include file sc/f2.phil\n  k = 0\n}\nq = 2\n",
+    # nested include scope, whole and with a sub-path
+    "ns": "p = 1\ninclude scope @MOD@.plain_o\nq = 2\nr {\n  include scope @MOD@.plain_s s.y\n}\nx = 4\n",
+    "deep": "include scope @MOD@.ns_c\nw {\n  include scope @MOD@.nf_o s\n  include scope @MOD@.ns_s r\n}\nlast = 1\n",
+    # the sub-path exists only through the nested include
+    "only": "include scope @MOD@.plain_c\nt {\n  include file @ROOT@/sc/f1.phil\n}\n",
+    "off": "a = 1\n!include scope @MOD@.plain_s\n!d {\n  include scope @MOD@.nowhere\n}\nb = 2\n",
+    # cycles: scope <-> scope, scope -> itself, scope <-> file
+    "cyca": "a = 1\ninclude scope @MOD@.cycb_s\n",
+    "cycb": "b = 1\ninclude scope @MOD@.cyca_o\n",
+    "selfc": "s0 = 1\ninclude scope @MOD@.selfc_s\n",
+    "fcyc": "f0 = 1\ninclude file @ROOT@/sc/back.phil\n",
+    "missing": "m = 1\ninclude file @ROOT@/sc/nowhere.phil\n",
+}
+SC_FILES = [
+    ["sc/f1.phil", "s {\n  y = 5\n  include file g.phil\n}\nx = 7\n"],
+    ["sc/g.phil", "g = 1\nu {\n  v = 2\n}\n"],
+    ["sc/f2.phil", "y = 6\n"],
+    ["sc/back.phil", "back = 1\ninclude scope @MOD@.fcyc_s\n"],
+    ["elsewhere/sc/f2.phil", "y = 66\nelse = 1\n"],
+    ["sc/doc.phil", ""],          # overwritten per case (mode "file")
+]
+SC_DIRS = ["sc", "elsewhere", "elsewhere/sc", "nofiles"]
+# sub-paths tried per target: mostly present in the EXPANDED target (several only through a nested
+# include), a few absent
+SUBPATHS = {
+    "plain": [None, "x", "s", "s.y", "s.z", "nothere", "s.nothere"],
+    "nf": [None, "p", "s", "s.y", "s.g", "s.u", "s.u.v", "r", "r.y", "r.k", "x", "q", "nothere", "r.g"],
+    "ns": [None, "p", "x", "s", "s.y", "s.z", "r", "r.y", "q", "r.z"],
+    "deep": [None, "w", "w.s", "w.s.y", "w.s.u.v", "w.r", "w.r.y", "x", "r.y", "s.z", "last", "w.x"],
+    "only": [None, "x", "s.y", "t", "t.s", "t.s.y", "t.s.g", "t.s.u", "t.x", "t.g"],
+    "off": [None, "a", "b", "d", "x"],
+}
+
+_MOD = {"name": None, "dir": None}
+
+
+def scope_module():
+    """Write (once per run) the Python module holding the targets; returns (module name, directory)."""
+    if _MOD["name"] is None:
+        name = "c13scopes_%d" % os.getpid()
+        d = tmp_root() + "/pymod"
+        os.makedirs(d, exist_ok=True)
+        src = ["import freephil", ""]
+        for t, text in TARGETS.items():
+            src.append("%s_s = %r" % (t, text.replace(MARK, base_dir()).replace(MODMARK, name)))
+            src.append("%s_o = freephil.parse(%s_s)" % (t, t))
+            src.append("def %s_c():\n    return freephil.parse(%s_s)\n" % (t, t))
+        src += ["notscope = 1.0", "none_t = None", "def bad_c():\n    return 3\n"]
+        with open("%s/%s.py" % (d, name), "w") as f:
+            f.write("\n".join(src) + "\n")
+        _MOD.update(name=name, dir=d)
+        atexit.register(sys.modules.pop, name, None)
+    return _MOD["name"], _MOD["dir"]
+
+
+class Expect(Exception):
+    """outcome the property demands other than a tree"""
+
+
+def scan2(text):
+    """like scan(), for include-file and include-scope lines: (line, None | ("file", name) |
+    ("scope", import_path, sub_path-or-None))"""
+    depth = 0
+    dis = None
+    for line in text.split("\n"):
+        s = line.strip()
+        inc = None
+        if s.endswith("{"):
+            if dis is None and s.startswith("!"):
+                dis = depth
+            depth += 1
+        elif s == "}":
+            depth -= 1
+            if dis is not None and depth == dis:
+                dis = None
+        elif dis is None:
+            m = INC_RE.match(s)
+            if m:
+                inc = ("file", m.group(2))
+            else:
+                m = INC_SCOPE_RE.match(s)
+                if m:
+                    inc = ("scope",) + tuple(m.group(1).split())
+        yield line, inc
+
+
+class IncludeScope(Stream):
+    """'include scope <module.object> [<sub.path>]' on the implementation, judged by the property's
+    own statement: expand the target completely FIRST (nested include file / include scope lines,
+    recursively), select the sub-path AFTERWARDS, splice at the position of the include line.
+    The model does not cover Python-level targets (it answers Unmodelled after the argument-count
+    checks), so this stream is oracle-only: model() echoes the implementation's observation unless
+    the model has an opinion (argument-count errors, errors raised before the include-scope line)."""
+    name = "include_scope"
+    cluster = "Include"
+    impl_timeout = 10.0
+
+    def __init__(self, ctx):
+        super().__init__(ctx)
+        self.fp = import_freephil()
+
+    # ---- cases
+    def mk(self, doc, mode="str", cwd=""):
+        return {"doc": doc, "mode": mode, "cwd": cwd}
+
+    def corpus(self):
+        M = MODMARK
+        return [
+            self.mk("include scope %s.ns_o r\n" % M),                       # sub-path that a nested include fills
+            self.mk("o {\n  include scope %s.only_s t.s.y\n}\n" % M),
+            self.mk("include scope %s.only_c x\n" % M),
+            self.mk("include scope %s.nf_s r\n" % M, cwd="elsewhere"),
+            self.mk("include scope %s.selfc_s\n" % M),                      # former finding C13-F1: must be the cycle error
+            self.mk("include scope %s.cyca_o\n" % M, mode="file"),          # former finding C13-F1
+            self.mk("include scope %s.plain_s\ninclude scope %s.plain_s\no {\n  include scope %s.plain_s s\n}\n" % (M, M, M)),  # same target side by side: no cycle
+            self.mk("include scope %s.fcyc_c\n" % M),
+            self.mk("include scope %s.plain_s nothere\n" % M),
+            self.mk("include scope %s.notscope\n" % M),
+            self.mk("include scope %s.nothere\n" % M),
+            self.mk("include scope nomodule_c13_zz.x\n"),
+            self.mk("include scope short\n"),
+            self.mk("include scope %s.bad_c\n" % M),
+            self.mk("include scope %s.plain_s a b\n" % M),
+        ]
+
+    def cases(self, rng, tier):
+        M = MODMARK
+        names = [t + v for t in TARGETS for v in ("_s", "_o", "_c")]
+        combos = [(n, p) for n in names for p in SUBPATHS.get(n[:-2], [None, "a"])]
+        if tier != "quick":
+            combos = combos * 8
+        for n, p in combos:
+            inc = "include scope %s.%s%s" % (M, n, "" if p is None else " " + p)
+            k = rng.randrange(4)
+            if k == 0:
+                doc = inc + "\n"
+            elif k == 1:
+                doc = "d0 = 1\n" + inc + "\nd1 = 2\n"
+            elif k == 2:
+                doc = "d0 = 1\no {\n  e = 1\n  " + inc + "\n  f = 2\n}\nd1 = 2\n"
+            else:
+                doc = "o {\n  oo {\n    " + inc + "\n  }\n}\n" + "include scope %s.plain_o s\n" % M
+            yield self.mk(doc, mode="file" if rng.randrange(4) == 0 else "str",
+                          cwd=rng.choice(["", "", "elsewhere", "nofiles"]))
+        for bad in ["%s.notscope" % M, "%s.none_t" % M, "%s.bad_c" % M, "%s.nothere" % M, "nomodule_c13_zz.x", "short",
+                    "%s.plain_s.x" % M, "%s.plain_s a b" % M, "%s.plain_s a b c" % M]:
+            yield self.mk("d0 = 1\ninclude scope %s\n" % bad)
+            yield self.mk("o {\n  include scope %s\n}\n" % bad, mode="file")
+
+    # ---- running the implementation
+    def files(self, case):
+        return {"files": [[r, (case["doc"] if r == "sc/doc.phil" and case["mode"] == "file" else t)
+                           .replace(MODMARK, scope_module()[0])] for r, t in SC_FILES], "dirs": SC_DIRS}
+
+    def doc(self, case, base):
+        return subst(case["doc"], base).replace(MODMARK, scope_module()[0])
+
+    def impl(self, case):
+        mod, moddir = scope_module()
+        base = materialise(self.files(case))
+        old = os.getcwd()
+        lim = sys.getrecursionlimit()
+        sys.path.insert(0, moddir)
+        tree = None
+        try:
+            os.chdir(base + "/" + case["cwd"] if case["cwd"] else base)
+            sys.setrecursionlimit(min(lim, frame_depth() + 250))
+            try:
+                if case["mode"] == "file":
+                    tree = self.fp.parse(file_name=base + "/sc/doc.phil", process_includes=True)
+                else:
+                    tree = self.fp.parse(input_string=self.doc(case, base), process_includes=True)
+                obs = tree_obs(tree)
+            except Exception as e:  # noqa
+                obs = err_obs(e, base)
+                if obs[1].startswith("other:") and obs[1] not in ("other:OSError", "other:RecursionError"):
+                    obs = ["err", obs[1], "", "0", []]      # line of a non-refusal is nobody's business here
+        finally:
+            sys.setrecursionlimit(lim)
+            os.chdir(old)
+            sys.path.remove(moddir)
+        return [obs, self.judge(case, base, obs, tree)]
+
+    # ---- the property's statement
+    def expand(self, text, refdir, cwd_abs, base, fstack, depth):
+        """text with every active include line replaced by what the property says goes there"""
+        if depth > 60:
+            raise Expect("cycle")            # cannot happen: every level pushes a file name or a scope key
+        mod = scope_module()[0]
+        files = {base + "/" + r: t for r, t in self._files}
+        out = []
+        for line, inc in scan2(text):
+            if inc is None:
+                out.append(line)
+            elif inc[0] == "file":
+                name = inc[1]
+                if not name.startswith("/"):
+                    name = (cwd_abs if refdir is None else refdir) + "/" + name
+                n = posixpath.normpath(name)
+                if n not in files:
+                    raise Expect("oserror")
+                if n in fstack:
+                    raise Expect("cycle")
+                out.append(self.expand(files[n], posixpath.dirname(n), cwd_abs, base, fstack + [n], depth + 1))
+            else:
+                if len(inc) > 3:
+                    raise Expect("args")                  # more than import path + sub-path
+                imp, sub = inc[1], (inc[2] if len(inc) == 3 else None)
+                parts = imp.split(".")
+                if len(parts) != 2 or parts[0] != mod or parts[1][:-2] not in TARGETS or parts[1][-2:] not in ("_s", "_o", "_c"):
+                    raise Expect("badtarget")
+                ttext = subst(TARGETS[parts[1][:-2]], base).replace(MODMARK, mod)
+                key = "scope " + imp             # the stack mixes normalised file names and these keys
+                if key in fstack:
+                    raise Expect("cycle")
+                full = self.expand(ttext, None, cwd_abs, base, fstack + [key], depth + 1)   # expand first ...
+                if sub is None:
+                    out.append(full)
+                else:
+                    sel = self.fp.parse(input_string=full).get(path=sub)               # ... select afterwards
+                    if len(sel.objects) == 0:
+                        raise Expect("notfound")
+                    out.append(sel.as_str(attributes_level=3))
+        return "\n".join(out)
+
+    def expectation(self, case, base):
+        """("text", inlined text) or ("cycle"|"oserror"|"notfound"|"args"|"badtarget", None)"""
+        self._files = [[r, subst(t, base)] for r, t in self.files(case)["files"]]
+        cwd_abs = base + "/" + case["cwd"] if case["cwd"] else base
+        try:
+            if case["mode"] == "file":
+                n = base + "/sc/doc.phil"
+                return "text", self.expand(self.doc(case, base), posixpath.dirname(n), cwd_abs, base, [n], 0)
+            return "text", self.expand(self.doc(case, base), None, cwd_abs, base, [], 0)
+        except Expect as e:
+            return str(e), None
+
+    def judge(self, case, base, obs, tree):
+        kind, text = self.expectation(case, base)
+        if kind == "text":
+            if tree is None:
+                return "expected the spliced tree, outcome is %r" % (obs[:3],)
+            want = self.fp.parse(input_string=text).as_str(attributes_level=3)
+            return None if tree.as_str(attributes_level=3) == want else \
+                "spliced objects are not the sub-path of the fully expanded target:\n%s\ninstead of\n%s" % (
+                    tree.as_str(), self.fp.parse(input_string=text).as_str())
+        if kind == "cycle":
+            # files and 'include scope' targets alike (cycles made only of include-scope lines used to
+            # recurse until RecursionError: former finding C13-F1, repaired in the code)
+            if obs[:3] != ["err", "RuntimeError", "cycle"]:
+                return "an include chain returns to a file / scope target being expanded: outcome %r" % (obs[:3],)
+            if len(obs[4]) < 2 or obs[4][-1] not in obs[4][:-1]:
+                return "reported chain %r does not end in a repeated entry" % (obs[4],)
+            return None
+        if kind == "oserror":
+            return None if obs[:2] == ["err", "other:OSError"] else "a named file does not exist: outcome %r" % (obs[:3],)
+        if kind == "notfound":
+            return None if obs[:3] == ["err", "RuntimeError", "rt"] else "sub-path absent from the expanded target: outcome %r" % (obs[:3],)
+        if kind == "args":
+            return None if obs[:3] == ["err", "RuntimeError", "rt"] else "too many arguments: outcome %r" % (obs[:3],)
+        # bad import path / not a scope: some refusal; which class is C16's business
+        return None if obs[0] == "err" else "unusable include-scope target was accepted"
+
+    def prop(self, case, o):
+        return o[1]
+
+    # ---- model: argument-count checks only
+    def requests(self, case, o):
+        base = base_dir()
+        tab = []
+        for r, t in self.files(case)["files"]:
+            try:
+                tab.append([base + "/" + r, ["ok", [obj_sx(x) for x in self.fp.parse(input_string=subst(t, base)).objects]]])
+            except RuntimeError as e:
+                tab.append([base + "/" + r, ["bad", err_line(str(e))]])
+        cwd = base + "/" + case["cwd"] if case["cwd"] else base
+        if case["mode"] == "file":
+            return [("includes", ["f", [[cwd, base + "/sc/doc.phil"]], tab])]
+        try:
+            objs = [obj_sx(x) for x in self.fp.parse(input_string=self.doc(case, base)).objects]
+        except RuntimeError:
+            return []
+        return [("includes", ["s", [[cwd, objs]], tab])]
+
+    def model(self, case, replies, o):
+        if not replies or replies[0] == ["badinput"]:
+            return o
+        m = model_obs(replies[0][0], base_dir())
+        if m == "UNMODELLED":
+            return o            # oracle-only (vlib skips prop for "UNMODELLED", so echo instead)
+        return [m, o[1]]
+
+    def key(self, case, o):
+        return json.dumps(case, sort_keys=True)
+
+    def tag(self, case, o):
+        r = o[0]
+        return self.expectation(case, base_dir())[0] + ":" + (r[0] if r[0] == "ok" else r[2] or r[1])
+
+    def shrink(self, case):
+        lines = case["doc"].split("\n")
+        for j, l in enumerate(lines):
+            s = l.strip()
+            if s and not s.endswith("{") and s != "}":
+                yield self.mk("\n".join(lines[:j] + lines[j + 1:]), case["mode"], case["cwd"])
+
+
 SPEC = {
     "clusters": ["Include"],
-    "streams": [Paths, Graphs, Malformed],
+    "streams": [Paths, Graphs, Malformed, IncludeScope],
     "rule": "paths: all strings over {a,b,.,..,/,//} up to 5 (quick) / 6 (thorough) tokens + random longer ones, x 3 real current "
             "directories; graphs: all 13^3 include graphs over 3 files with 0-2 ordered includes each (thorough: + 30 000 sampled over "
             "4 files with 0-3 includes), placement (top level / scope / nested scope), spelling of the name (relative, ./, detour "
             "through .., doubled slashes, quoted, absolute), FILE/File, root given absolute or relative, sampled per graph; every case "
             "run from two current directories that contain decoy files of the same names; malformed: fixed list x 5 positions + random "
-            "word soups; distinct = distinct (file texts, root, mode)",
+            "word soups; include_scope: 11 targets x 3 kinds (string, scope object, callable) x sub-paths (present - several only "
+            "through a nested include - and absent) x 4 placements x 3 current directories x root as string or file, plus unusable "
+            "targets; distinct = distinct (file texts, root, mode)",
     "trusted": ["Oracles: the file system and the parser (each file parsed by the real freephil.parse without include processing, the "
                 "object lists sent to the model as a table keyed by normalised absolute path), os.getcwd() (explicit argument), "
                 "'include scope' (not modelled: such cases are counted as unmodelled)",
                 "Text-level clause (tree = parse of the textually inlined text) is evaluated on the implementation by the stream's "
-                "oracle (harness-side textual inliner), not proved"],
+                "oracle (harness-side textual inliner), not proved",
+                "Stream include_scope is oracle-only: the model covers the argument-count checks and answers Unmodelled for the "
+                "Python-level import, so model() echoes the implementation there (vlib skips the oracle for UNMODELLED cases); the "
+                "oracle expands the target completely first (harness-side, textually, recursively), selects the sub-path with "
+                "scope.get afterwards and compares the printed trees; the exception class for unusable import paths is only required "
+                "to be a refusal (ValueError / ImportError / AttributeError observed: C16's topic)"],
     "modelled": "parse()'s include_stack logic, scope.process_includes (file branch, argument checks, disabled objects, nested scopes, "
                 "customized_copy), posixpath isabs/join/normpath/dirname/abspath modelled by hand in coq/theories/Model/Include.v",
     "assumptions": ["every directory named in an include path exists and there are no symbolic links (the model looks files up by "
